@@ -7,6 +7,11 @@ props = [json.loads(l) for l in open(os.path.join(V, "properties.jsonl"))]
 
 # property id -> (category, technique, level text, level note) ; absent = not claimed (reason in NOT_APPLICABLE)
 CLAIMS = {
+ "C11": ("exploration",
+         "runtime monitoring: reference-model oracle on Python lists + tick-trace monitor for procedure arguments over random argument tuples and compositions",
+         "random argument tuples for each of the 31 library procedures (in-domain, just outside, too short) and random compositions are evaluated by the real interpreter; value, error-vs-value and the tick trace of procedure arguments (once per element, list order) are judged by a model on Python lists.",
+         "trusted base: the list library of vlib/ref_scheme.py; any error kind is accepted where the model raises one"),
+
  "C01": ("exploration",
          "runtime monitoring: differential oracle (reference evaluator, 8 evaluation strategies) + metamorphic spelling comparison over typed random programs with tick traces",
          "typed random terminating programs over the core forms are evaluated form by form by the real interpreter; the value and the tick trace (order and multiplicity of operand evaluation) of every form are judged by an independent reference evaluator under one consistent evaluation strategy, and four equivalent spellings of each program must agree with each other.",
